@@ -400,7 +400,7 @@ impl Client {
         (now - self.time_base).as_millis() as u64
     }
 
-    fn handle_handshake_syn_ack(&mut self, frame: frame::HandshakeSynAckFrame) {
+    fn handle_handshake_syn_ack(&mut self, frame: frame::HandshakeSynAckFrame, now_ms: u64) {
         match self.state {
             State::Pending(ref mut state) => {
                 // If the server responds to our SYN with a matching SYN+ACK, it has already
@@ -458,7 +458,9 @@ impl Client {
                     self.state = State::Active(ActiveState {
                         local_nonce: state.local_nonce,
                         half_connection,
-                        timeout_time_ms: self.config.endpoint_config.active_timeout_ms,
+                        // The server has just been heard from: the silence timeout counts from now
+                        // (not from the creation of the client, however long the handshake took)
+                        timeout_time_ms: now_ms + self.config.endpoint_config.active_timeout_ms,
                         disconnect_signal: None,
                     });
                 }
@@ -598,7 +600,7 @@ impl Client {
             frame::Frame::HandshakeSynFrame(_) => (),
             frame::Frame::HandshakeAckFrame(_) => (),
             frame::Frame::HandshakeSynAckFrame(frame) => {
-                self.handle_handshake_syn_ack(frame);
+                self.handle_handshake_syn_ack(frame, now_ms);
             },
             frame::Frame::HandshakeErrorFrame(frame) => {
                 self.handle_handshake_error(frame);
